@@ -121,6 +121,8 @@ def symbolic_iter(I, it):
         cell = I.st.heap[it]
         snap = dict(cell)
         return cell['len'], lambda i: SV(z3.Select(snap['arr'], i.t), snap['ek'])
+    if isinstance(it, Ref) and it.kind == 'rows':
+        return I.st.heap[it]['len'], lambda i: getitem(I, it, i)
     if isinstance(it, _Enum):
         n, f = symbolic_iter(I, it.seq)
         return n, lambda i: (SV(z3.simplify(i.t + it.start), 'int'), f(i))
@@ -152,6 +154,8 @@ class _DictValues:
 
 def snapshot(I, v):
     """value snapshot for old()/entry(): lists are copied into fresh cells"""
+    if isinstance(v, Ref) and v.kind == 'rows':
+        return I.st.alloc('rows', dict(I.st.heap[v]), name=(v.name or 'm') + '_old', nd=v.nd)
     if isinstance(v, Ref) and v.kind == 'clist':
         r = I.st.alloc('clist', [snapshot(I, x) for x in I.st.heap[v]], name=(v.name or 'l') + '_old', nd=v.nd)
         return r
@@ -188,6 +192,9 @@ def _coerce_arr(arr, ek, to):
 
 
 def list_len(I, v):
+    if isinstance(v, Ref) and v.kind == 'rows':
+        t = z3.simplify(I.st.heap[v]['len'])
+        return t.as_long() if z3.is_int_value(t) else SV(t, 'int')
     if isinstance(v, Ref):
         if v.kind == 'clist' or v.kind == 'set' or v.kind == 'dict':
             return len(I.st.heap[v])
@@ -267,6 +274,21 @@ def getitem(I, obj, idx):
             if cell.get('opaque_elems') or obj.meta.get('opaque_elems'):
                 raise Unsupported('element of an unmodelled list')
             return SV(z3.simplify(z3.Select(cell['arr'], i)), cell['ek'])
+        if obj.kind == 'rows':
+            cell = st.heap[obj]
+            if isinstance(idx, tuple) and len(idx) == 2:
+                return getitem(I, getitem(I, obj, idx[0]), idx[1])
+            if isinstance(idx, slice) or numkind(idx) not in ('int', 'bool'):
+                raise Unsupported('index %r into symbolic 2-d array' % (idx,))
+            i = norm_index(I, idx, cell['len'])
+            if not st.branch(z3.And(i >= 0, i < cell['len'])):
+                raise PyExc('IndexError')
+            r = Ref('slist', (obj.name or 'm') + '_row')
+            st.stamp += 1
+            r.meta['birth'] = obj.meta.get('birth', 0)
+            r.meta['parent'] = (obj, i)
+            r.nd = obj.nd
+            return r
         if obj.kind == 'dict':
             cell = st.heap[obj]
             k = hkey(idx)
@@ -384,6 +406,17 @@ def setitem(I, obj, idx, v):
             nc['arr'] = z3.Store(arr, i, zint(v) if ek == 'int' else zreal(v))
             nc['ek'] = ek
             st.heap[obj] = nc
+            return
+        if obj.kind == 'rows':
+            row = getitem(I, obj, idx)
+            if not is_list(v):
+                raise Unsupported('assignment of a non-sequence to a row')
+            ln, arr, ek = to_slist(I, v)
+            c = st.heap[obj]
+            if not st.branch(ln == c['ncols']):
+                raise Unsupported('row assignment changes the row length')
+            st.note_write(obj)
+            st.heap[row] = {'len': ln, 'arr': arr, 'ek': ek}
             return
         if obj.kind == 'dict':
             st.note_write(obj)
